@@ -34,9 +34,10 @@ type c02Case struct {
 	L     string `json:"l,omitempty"`
 	R     string `json:"r,omitempty"`
 	Shape string `json:"shape,omitempty"` // document shape (doc part)
+	After string `json:"after,omitempty"` // "" | failure: what was rendered before (interpolation parts)
 }
 
-func (c *c02Case) Key() string { return c.Part + "|" + c.Src + "|" + c.Val }
+func (c *c02Case) Key() string { return c.Part + "|" + c.Src + "|" + c.Val + "|" + c.After }
 
 var c02Opts = htmlcmp.Options{Values: true, RawText: true, KeepDoctype: true}
 
@@ -182,6 +183,15 @@ func (c *c02Case) Run(ctx *core.Ctx) {
 		v := c02Values[c.Val]
 		ctx.NonTrivial()
 		ctx.Eval(1)
+		if c.After == "failure" {
+			// history: a render that fails in the middle of a text node and of an attribute value
+			// comes first (process-wide pools and caches see it)
+			_, ferr := renderString(`<p title="t {{ v }} u {{ v | nosuchfilter2 }}">k</p>`, map[string]any{"v": v})
+			_, ferr2 := renderString(`<p>pre {{ v }} mid {{ v | nosuchfilter }} post</p>`, map[string]any{"v": v})
+			if ferr == nil || ferr2 == nil {
+				ctx.Violation("interp", "failing-template-succeeds", "history", fmt.Sprint(ferr, ferr2))
+			}
+		}
 		out, err := renderPage(Files{"page.vuego": c.Src}, "page.vuego", map[string]any{"v": v, "one": []int{1}})
 		if err != nil {
 			ctx.Violation("render-error", c.Part, c.Val, fmt.Sprintf("src %q: %v", c.Src, err))
@@ -396,6 +406,15 @@ func c02Enumerate(tier string, emit func(core.Case)) {
 	}
 	// (v) interpolation
 	neigh := []string{"", "a ", "&amp; ", "&lt;", " b", "&lt;b&gt; ", "x;"}
+	plainEmit := emit
+	emit = func(cs core.Case) {
+		plainEmit(cs)
+		if c, ok := cs.(*c02Case); ok && (c.Part == "interp-text" || c.Part == "interp-attr" || c.Part == "bound") {
+			d := *c
+			d.After = "failure"
+			plainEmit(&d)
+		}
+	}
 	for _, vn := range c02ValueNames {
 		for _, l := range neigh {
 			for _, r := range neigh {
@@ -416,7 +435,7 @@ func init() {
 		ID:    "C02",
 		Level: "exploration",
 		Rule: "directive-free templates generated from a grammar (block/inline/void/table/raw-text elements, text, comments; attribute and text sweeps with character references; full documents with/without doctype), kept only when parser-stable; " +
-			"oracle: normalised DOM of parse(render(t)) equals that of parse(t). Interpolation: every value x static neighbours x {text, attr, bound attr, v-html}; oracle: parsed text/attribute = neighbours + string form, v-html verbatim. " +
+			"oracle: normalised DOM of parse(render(t)) equals that of parse(t). Interpolation: every value x static neighbours x {text, attr, bound attr, v-html}; oracle: parsed text/attribute = neighbours + string form, v-html verbatim; every interpolation case also right after a render that failed in the middle of a text node / attribute value. " +
 			"non-trivial = parser-stable template or interpolation case; distinct = distinct source text (+value)",
 		Bounds:      map[string]string{"quick": "all forests of <=3 nodes over 23 node labels, depth <=3; full attribute/text/document/interpolation sweeps", "thorough": "all forests of <=4 nodes; same sweeps"},
 		Assumptions: []string{"golang.org/x/net/html is a faithful HTML5 parser", "whitespace-only text, comments, whitespace runs in text and leading/trailing whitespace of attribute values are insignificant", "v-html value is compared after TrimSpace (pinned by a unit test)"},
